@@ -30,6 +30,26 @@ fn models(tier: Tier) -> Vec<Model> {
             v.extend(gen::m5(1).into_iter().step_by(1));
         }
     }
+    // scheduling models: cumulative task sets (medium sets incl. the ones around time 0, the
+    // decision-profile and negative-anchor sets of C08) under the default options, the incremental
+    // propagators with incremental backtracking, and pointwise explanations with holes and
+    // sequences; every start time (and view of it) is an objective
+    let mut sets = crate::props::c08::medium_sets(tier);
+    sets.extend(crate::props::c08::decision_profile_sets());
+    sets.extend(crate::props::c08::negative_anchor_sets(tier).into_iter().step_by(if tier.quick() { 41 } else { 7 }));
+    let opts = [
+        CumOpts::default_opts(),
+        CumOpts { holes: false, explanation: 1, sequence: false, method: 1, incremental_backtracking: true },
+        CumOpts { holes: false, explanation: 0, sequence: true, method: 4, incremental_backtracking: true },
+        CumOpts { holes: true, explanation: 2, sequence: true, method: 5, incremental_backtracking: false },
+    ];
+    for (i, ts) in sets.iter().enumerate() {
+        for (k, o) in opts.iter().enumerate() {
+            if !tier.quick() || (i + k) % 2 == 0 {
+                v.push(ts.model(*o));
+            }
+        }
+    }
     v
 }
 
